@@ -1130,6 +1130,9 @@ def chunk_call(cls, params, rec):
 	dt = getattr(torch, dtname)
 	xs = [torch.from_numpy(a).type(dt) for a in arrays]
 	if mixed and max(int(a.max()) if a.size else 0 for a in arrays) < 2 ** 31:
+		# the wide sequences carry non-integer values (+ 0.5, exact)
+		arrays = [a if i == 0 else a.astype(numpy.float64) + 0.5
+			for i, a in enumerate(arrays)]
 		xs = [torch.from_numpy(a).type(torch.int32 if i == 0 else
 			torch.float64) for i, a in enumerate(arrays)]
 		rec.count("chunk_mixed_dtype_calls")
